@@ -119,7 +119,7 @@ def certificate(m, d, mm, dd, cfg):
   nacon = int(dd.nacon.numpy()[0])
   niter = dd.solver_niter.numpy()
   ELL = int(types.ConstraintType.CONTACT_ELLIPTIC)
-  for w in range(dd.nworld):
+  for w in range(dd.nworld if nv else 0):
     nefc, ne, nf = int(dd.nefc.numpy()[w]), int(dd.ne.numpy()[w]), int(dd.nf.numpy()[w])
     st["rows"] += nefc
     st["niter"] = max(st["niter"], int(niter[w]))
